@@ -238,10 +238,7 @@ func (srv *Session) handleCommand(ctx context.Context, conn net.Conn, t types.Cl
 		// https://github.com/postgres/postgres/blob/6e1dd2773eb60a6ab87b27b8d9391b756e904ac3/src/backend/tcop/postgres.c#L4295
 		return nil
 	case types.ClientClose:
-		// TODO: close the statement or portal
-		writer.Start(types.ServerCloseComplete) //nolint:errcheck
-		writer.End()                            //nolint:errcheck
-		return nil
+		return srv.handleClose(ctx, reader, writer)
 	case types.ClientTerminate:
 		err := srv.handleConnTerminate(ctx)
 		if err != nil {
@@ -586,6 +583,45 @@ func (srv *Session) handleExecute(ctx context.Context, reader *buffer.Reader, wr
 	}
 
 	return nil
+}
+
+// closer is implemented by statement and portal caches which are able to
+// release the statement or portal bound to a given name.
+type closer interface {
+	Close(ctx context.Context, name string) error
+}
+
+// handleClose closes the named prepared statement or portal. The name can no
+// longer be resolved once it has been closed, closing an unknown name is not
+// an error.
+func (srv *Session) handleClose(ctx context.Context, reader *buffer.Reader, writer *buffer.Writer) error {
+	d, err := reader.GetBytes(1)
+	if err != nil {
+		return err
+	}
+
+	name, err := reader.GetString()
+	if err != nil {
+		return err
+	}
+
+	var cache any
+	switch types.DescribeMessage(d[0]) {
+	case types.DescribeStatement:
+		cache = srv.Statements
+	case types.DescribePortal:
+		cache = srv.Portals
+	}
+
+	if cache, ok := cache.(closer); ok {
+		err = cache.Close(ctx, name)
+		if err != nil {
+			return srv.extendedError(writer, err)
+		}
+	}
+
+	writer.Start(types.ServerCloseComplete)
+	return writer.End()
 }
 
 func (srv *Session) handleConnTerminate(ctx context.Context) error {
